@@ -109,6 +109,62 @@ and all paths -/
 theorem C20_match_iff (ps : List PSeg) (path : List (List Char)) :
     gmatch ps path = true ↔ Matches ps path := ⟨gmatch_sound ps path, gmatch_complete⟩
 
+/-- two adjacent `**` components mean the same as one -/
+theorem gmatch_dstar_dstar (ps : List PSeg) : ∀ path, gmatch (.dstar :: .dstar :: ps) path = gmatch (.dstar :: ps) path := by
+  intro path
+  induction path with
+  | nil =>
+    rw [gmatch.eq_def (.dstar :: .dstar :: ps)]
+    simp
+  | cons x rest ih =>
+    rw [gmatch.eq_def (.dstar :: .dstar :: ps)]
+    simp only [List.isEmpty_cons, Bool.false_eq_true, if_false, ih]
+    by_cases hps : ps.isEmpty = true
+    · have : ps = [] := List.isEmpty_iff.mp hps
+      subst this
+      rw [gmatch.eq_def [.dstar] (x :: rest)]
+      simp
+    · rw [gmatch.eq_def (.dstar :: ps) (x :: rest)]
+      simp only [hps]
+      cases gmatch ps (x :: rest) <;> cases gmatch (.dstar :: ps) rest <;> rfl
+
+/-- matching depends on the rest of the pattern only through what the rest matches (and whether it
+is empty: a trailing `**` needs one more segment) -/
+theorem gmatch_congr (h : PSeg) (p q : List PSeg) (he : p.isEmpty = q.isEmpty)
+    (hm : ∀ y, gmatch p y = gmatch q y) : ∀ x, gmatch (h :: p) x = gmatch (h :: q) x := by
+  intro x
+  cases h with
+  | seg sp =>
+    cases x with
+    | nil => rw [gmatch.eq_def, gmatch.eq_def (.seg sp :: q)]
+    | cons s rest => rw [gmatch.eq_def, gmatch.eq_def (.seg sp :: q)]; simp [hm]
+  | dstar =>
+    induction x with
+    | nil => rw [gmatch.eq_def, gmatch.eq_def (.dstar :: q)]; simp [he, hm]
+    | cons s rest ih => rw [gmatch.eq_def, gmatch.eq_def (.dstar :: q)]; simp [he, hm, ih]
+
+theorem collapse_isEmpty (p : List PSeg) : (collapse p).isEmpty = p.isEmpty := by
+  fun_induction collapse p <;> simp_all
+
+/-- **C20 (the include patterns are globbed after `collapseDoublestars`)**: dropping a `**` that
+directly follows another one never changes which paths a pattern matches — the normalisation the
+watcher applies before `doublestar.Glob` is neutral for the pattern semantics, for every pattern
+and every path. -/
+theorem C20_collapse_neutral (p : List PSeg) : ∀ x, gmatch (collapse p) x = gmatch p x := by
+  fun_induction collapse p with
+  | case1 ps ih =>
+    intro x
+    rw [ih x, gmatch_dstar_dstar]
+  | case2 s ps hne ih =>
+    intro x
+    exact gmatch_congr s _ _ (collapse_isEmpty ps) ih x
+  | case3 => intro x; rfl
+
+-- non-vacuity: the normalisation does something, exactly on adjacent double stars
+example : collapse [.dstar, .dstar, .seg [.qmark]] = [.dstar, .seg [.qmark]] := by simp [collapse]
+example : collapse [.seg [.lit 'a'], .dstar, .dstar, .dstar, .seg [.lit 'b'], .dstar] =
+    [.seg [.lit 'a'], .dstar, .seg [.lit 'b'], .dstar] := by simp [collapse]
+
 /-- **a watcher observes exactly the paths that match at least one include pattern and no exclude
 pattern**, for every tree and every pattern sets -/
 theorem C20_select_exact (incl excl : List (List PSeg)) (tree : List (List (List Char)))
